@@ -19,7 +19,8 @@ func init() {
 			"R2 the persisted read position advances (moveForward) only in the select case that has just delivered the message to the consumer, and reading ahead writes only the look-ahead position; " +
 			"R3 Close stops the I/O goroutine (exit: flag, close(exitChan), wait) and then always syncs; Put and Empty check the exit flag under the read lock before talking to the goroutine; " +
 			"R4 depth is incremented exactly on the successful-write path of writeOne and decremented exactly once per moveForward; " +
-			"R5 writer and reader agree on the on-disk format and on the segment-roll rule: both roll when their position is strictly greater than maxBytesPerFile, both use a 4-byte big-endian int32 length and count 4 + length bytes.",
+			"R5 writer and reader agree on the on-disk format and on the segment-roll rule: both roll when their position is strictly greater than maxBytesPerFile, both use a 4-byte big-endian int32 length and count 4 + length bytes; " +
+			"R10 whether the I/O loop calls readOne again is decided by comparing the read-ahead cursor with the read cursor (or by a flag assigned from constants), never by the length, nil-ness or content of the message buffer, so a pending zero-length message is not read over.",
 		NotDecided: "FIFO exactness, rollover and oversize-message arithmetic as values (positions, lengths); what Depth() reports while operations are in flight.",
 		Rules: []RuleDef{
 			{ID: "C09.R1", Min: 10, Doc: "ioLoop confinement: for every function storing into the confined fields, every chain of synchronous callers ends in ioLoop, in NewDiskQueue before `go ioLoop`, or in exit/Close/Delete after the wait on exitSyncChan; stores to depth only via sync/atomic", Run: c09r1},
@@ -30,6 +31,7 @@ func init() {
 			{ID: "C09.R7", Min: 3, Doc: "segment and metadata files are never truncated on open: the flag argument of every os.OpenFile in package nsqd is a constant (on every path) without O_TRUNC / O_APPEND / O_EXCL — the writer resumes inside an existing segment at the persisted position after a restart", Run: c09r7},
 			{ID: "C09.R8", Min: 2, Doc: "opening and closing never destroy data: no os.Remove / os.Rename / Truncate is reachable (over call and defer edges, not through the started ioLoop goroutine) from NewDiskQueue or from Close — a queue that is reopened finds every segment its metadata refers to", Run: c09r8},
 			{ID: "C09.R9", Min: 4, Doc: "read-ahead cursor follows the read cursor: wherever readPos / readFileNum is set from something other than the read-ahead cursor (metadata load, skip past a bad segment, reset), nextReadPos / nextReadFileNum is set to the same value before the function or its caller returns; and a store that steps the read-ahead cursor from its own value is dominated by one that bases it on the read cursor (readOne may run twice for one record)", Run: c09r9},
+			{ID: "C09.R10", Min: 1, Doc: "the decision to read ahead is taken on the cursors: no branch condition that controls a call of readOne (in ioLoop, in a helper that contains the call, or at the helper's call sites) depends on the message value — what readOne returned / what is sent on readChan, followed through phis, cells, fields, helper parameters and results; its length, nil-ness or content says nothing about a pending read-ahead because the empty message is a message", Run: c09r10},
 			{ID: "C09.R5", Min: 3, Doc: "sibling agreement: normalised roll conditions of readOne/writeOne; length header type and byte order; record size 4+len", Run: c09r5},
 		},
 	})
